@@ -305,6 +305,28 @@ func engineC46(c *vctx) error {
 			}
 		}
 	}
+	// load error on blob k >= 1: every (offset,size) pair, so that reads which already copied from
+	// blobs before k meet the failure in the middle of the request (must be an error, never a short
+	// successful read)
+	for li, lens := range [][]int{{2, 3}, {3, 0, 2}, {1, 1, 1}, {2, 3, 1}} {
+		for k := 1; k < len(lens); k++ {
+			if lens[k] == 0 {
+				continue
+			}
+			l := c46Mk(rng, lens, nil)
+			l.fail[k] = true
+			cache := bigCache
+			if (li+k)%2 == 1 {
+				cache = tinyCache
+			}
+			h := c46Open(l, cache)
+			for off := 0; off <= l.total; off++ {
+				for size := 0; size <= l.total+1; size++ {
+					seq("corpus-load-error-mid-request", l, h, int64(off), size, 0)
+				}
+			}
+		}
+	}
 	// extreme offsets (uint64 conversion), response buffer with spare capacity
 	{
 		l := c46Mk(rng, []int{2, 0, 3}, nil)
